@@ -204,9 +204,9 @@ class Interp:
                     return None
                 w = cands[step[2] % len(cands)]
             return [op, v, w] + list(step[3:])
-        if op == "colvec":
+        if op in ("colvec", "colvecf"):
             col = [step[2][i % len(step[2])] for i in range(nr)]
-            return ["colvec", v, col, step[3], step[4]]
+            return [op, v, col, step[3], step[4]]
         if op in ("rowread", "fillrow"):
             return [op, v, step[2] % (2 * nr + 2) - nr - 1 if nr else 0] + list(step[3:])
         if op == "cell":
@@ -250,8 +250,8 @@ class Interp:
             y = w.vars[st[2]]
             r = x + y if st[3] == "add" else x - y if st[3] == "sub" else np.maximum(x, y)
             return ("var", r, False)
-        if op == "colvec":
-            col = np.array(st[2], dtype=np.int64).reshape(-1, 1)
+        if op in ("colvec", "colvecf"):
+            col = np.array(st[2], dtype=np.int64 if op == "colvec" else np.float64).reshape(-1, 1)
             if st[3] == "left":
                 r = col - x if st[4] == "sub" else col + x
             else:
